@@ -80,7 +80,8 @@ type Op struct {
 	Dt        int64        `json:"dt,omitempty"`        // block: time step (ns)
 	N         int          `json:"n,omitempty"`         // block: number of blocks
 	Params    *ParamSpec   `json:"params,omitempty"`
-	Opts      bool         `json:"opts,omitempty"`  // updbind: also sends an options document
+	Opts      bool         `json:"opts,omitempty"`  // updbind / bind: sends a non-default options document; define: tags and descriptions
+	AsIs      bool         `json:"asis,omitempty"`  // restart: as-is genesis round trip instead of the zero-height restart
 	Denom     string       `json:"denom,omitempty"` // rate
 	Rate      string       `json:"rate,omitempty"`
 }
@@ -89,6 +90,7 @@ const (
 	stActive = iota
 	stAnswered
 	stExpired
+	stDropped // refunded and forgotten by a zero-height restart
 )
 
 type mBinding struct {
@@ -100,6 +102,7 @@ type mBinding struct {
 	qos      uint64
 	avail    bool
 	disabled time.Time
+	restored bool // went through a genesis import
 }
 
 type mBatch struct {
@@ -134,6 +137,7 @@ type mCtx struct {
 	lastIssue int64
 	clean     bool // running at every observation and not updated since the last issue
 	modified  bool // an update of its settings was accepted at some point
+	restarted bool // reset by a zero-height restart (its in-flight batch, if any, was forgotten)
 	batch     *mBatch
 
 	nBatches     int
@@ -199,6 +203,15 @@ func (m *machine) user(i int) sdk.AccAddress {
 }
 
 func provIdx(i int) int { return ((i % nProviders) + nProviders) % nProviders }
+
+// provAddr is the address of provider i. Provider 3 is the account of owner U1, so that bindings with
+// owner == provider (bound by U1) and owner != provider occur side by side.
+func provAddr(i int) sdk.AccAddress {
+	if i == 3 {
+		return gen.Env().Users[1].Addr
+	}
+	return SvcProviderAddr(i)
+}
 
 // addrOf maps a withdraw-address index to an address: the six users plus one account outside the universe.
 func (m *machine) addrOf(i int) sdk.AccAddress {
@@ -392,6 +405,8 @@ func (m *machine) Apply(op Op) error {
 		err = m.doParams(op)
 	case "rate":
 		err = m.doRate(op)
+	case "restart":
+		err = m.doRestart(op)
 	case "block":
 		n := op.N
 		if n < 1 {
@@ -414,7 +429,12 @@ func (m *machine) Apply(op Op) error {
 
 func (m *machine) doDefine(op Op) error {
 	name := svcName(op.Svc)
-	sr, err := m.step("define", func() chain.Result { return m.s.Define(m.user(op.Who), name) })
+	sr, err := m.step("define", func() chain.Result {
+		if op.Opts {
+			return m.s.DefineWith(m.user(op.Who), name, "a longer description of "+name, "", []string{"t1", "tag-2"})
+		}
+		return m.s.Define(m.user(op.Who), name)
+	})
 	if err != nil {
 		return err
 	}
@@ -445,7 +465,10 @@ func (m *machine) doBind(op Op) error {
 	name, prov, owner := svcName(op.Svc), provIdx(op.Prov), op.Who
 	dep := mustBig(op.Amt)
 	sr, err := m.step("bind", func() chain.Result {
-		return m.s.Bind(m.user(owner), SvcProviderAddr(prov), name, coin(baseDenom, dep), op.Pricing.JSON(), op.QoS)
+		if op.Opts {
+			return m.s.BindWith(m.user(owner), provAddr(prov), name, coin(baseDenom, dep), op.Pricing.JSON(), op.QoS, `{"region":"x","n":[1,2]}`)
+		}
+		return m.s.Bind(m.user(owner), provAddr(prov), name, coin(baseDenom, dep), op.Pricing.JSON(), op.QoS)
 	})
 	if err != nil {
 		return err
@@ -491,7 +514,7 @@ func (m *machine) doUpdBind(op Op) error {
 		if op.Opts {
 			opts = `{"o":1}`
 		}
-		return m.s.UpdateBinding(m.user(owner), SvcProviderAddr(prov), name, coin(baseDenom, add), pj, op.QoS, opts)
+		return m.s.UpdateBinding(m.user(owner), provAddr(prov), name, coin(baseDenom, add), pj, op.QoS, opts)
 	})
 	if err != nil {
 		return err
@@ -547,7 +570,7 @@ func (m *machine) doUpdBind(op Op) error {
 func (m *machine) doDisable(op Op) error {
 	name, prov, owner := svcName(op.Svc), provIdx(op.Prov), op.Who
 	now := m.s.C.Time()
-	sr, err := m.step("disable", func() chain.Result { return m.s.Disable(m.user(owner), SvcProviderAddr(prov), name) })
+	sr, err := m.step("disable", func() chain.Result { return m.s.Disable(m.user(owner), provAddr(prov), name) })
 	if err != nil {
 		return err
 	}
@@ -572,7 +595,7 @@ func (m *machine) doEnable(op Op) error {
 		add = mustBig(op.Amt)
 	}
 	sr, err := m.step("enable", func() chain.Result {
-		return m.s.Enable(m.user(owner), SvcProviderAddr(prov), name, coin(baseDenom, add))
+		return m.s.Enable(m.user(owner), provAddr(prov), name, coin(baseDenom, add))
 	})
 	if err != nil {
 		return err
@@ -606,7 +629,7 @@ func (m *machine) doEnable(op Op) error {
 func (m *machine) doRefund(op Op) error {
 	name, prov, owner := svcName(op.Svc), provIdx(op.Prov), op.Who
 	now := m.s.C.Time()
-	sr, err := m.step("refund", func() chain.Result { return m.s.RefundDeposit(m.user(owner), SvcProviderAddr(prov), name) })
+	sr, err := m.step("refund", func() chain.Result { return m.s.RefundDeposit(m.user(owner), provAddr(prov), name) })
 	if err != nil {
 		return err
 	}
@@ -648,7 +671,7 @@ func (m *machine) doSetWd(op Op) error {
 func (m *machine) provAddrs(ps []int) []sdk.AccAddress {
 	out := make([]sdk.AccAddress, len(ps))
 	for i, p := range ps {
-		out[i] = SvcProviderAddr(provIdx(p))
+		out[i] = provAddr(provIdx(p))
 	}
 	return out
 }
@@ -754,7 +777,7 @@ func (m *machine) doRespond(op Op) error {
 		output = SvcOutputN(len(m.reqs)*1000 + m.nOps)
 	}
 	wellFormed := (code == 200) == op.Output
-	sr, err := m.step("respond", func() chain.Result { return m.s.Respond(SvcProviderAddr(prov), r.id, SvcResult(code), output) })
+	sr, err := m.step("respond", func() chain.Result { return m.s.Respond(provAddr(prov), r.id, SvcResult(code), output) })
 	if err != nil {
 		return err
 	}
@@ -768,7 +791,7 @@ func (m *machine) doRespond(op Op) error {
 			m.cl["respond-wrong-provider"]++
 		case r.status == stAnswered:
 			m.cl["respond-duplicate"]++
-		case r.status == stExpired:
+		case r.status == stExpired || r.status == stDropped:
 			m.cl["respond-late"]++
 		}
 	}
@@ -789,6 +812,14 @@ func (m *machine) doRespond(op Op) error {
 		r.status = stAnswered
 		m.vol[m.volKey(r.ctx.consumer, r.ctx.svc, r.prov)]++
 		m.cl["answered"]++
+		if b := m.binds[bindKey(r.ctx.svc, r.prov)]; b != nil && b.restored && r.fee.Sign() > 0 {
+			m.cl["restart-then-earned-fee-on-restored-binding"]++
+			if provAddr(r.prov).Equals(m.user(b.owner)) {
+				m.cl["restart-then-earned-fee-owner==provider"]++
+			} else {
+				m.cl["restart-then-earned-fee-owner!=provider"]++
+			}
+		}
 		if r.discount {
 			m.cl["answered-discounted"]++
 		}
@@ -932,7 +963,7 @@ func (m *machine) doUpdCtx(op Op) error {
 		for _, p := range cc.Providers {
 			idx := -1
 			for i := 0; i < nProviders; i++ {
-				if SvcProviderAddr(i).String() == p {
+				if provAddr(i).String() == p {
 					idx = i
 				}
 			}
@@ -983,7 +1014,7 @@ func (m *machine) doWithdraw(op Op) error {
 		return m.wantDelta("withdraw", sr, e)
 	}
 	prov := provIdx(op.Prov)
-	sr, err = m.step("withdraw", func() chain.Result { return m.s.Withdraw(m.user(owner), SvcProviderAddr(prov)) })
+	sr, err = m.step("withdraw", func() chain.Result { return m.s.Withdraw(m.user(owner), provAddr(prov)) })
 	if err != nil {
 		return err
 	}
@@ -996,6 +1027,9 @@ func (m *machine) doWithdraw(op Op) error {
 		for _, d := range m.earned[prov].denoms() {
 			e.Move(SvcRequestEscrow, wdAddr, d, m.earned[prov][d])
 			m.cl["withdraw-paid"]++
+			if b := m.anyRestoredBinding(prov); b {
+				m.cl["restart-then-withdraw"]++
+			}
 		}
 		delete(m.earned, prov)
 	}
@@ -1003,6 +1037,128 @@ func (m *machine) doWithdraw(op Op) error {
 		return err
 	}
 	return m.wantDelta("withdraw", sr, e)
+}
+
+// doRestart takes the service module through its genesis and lets the history continue.
+//
+// as-is: export, wipe exactly the prefixes the genesis carries, import; admissible only while every stored context
+// is PAUSED with a COMPLETED batch (anything else is rejected by the genesis validation: known finding F9e). The
+// model is untouched: nothing may change.
+//
+// zero-height (the real restart): service.PrepForZeroHeightGenesis, then export, wipe the whole store, import. The
+// model learns exactly what the preparation documents and what the genesis visibly does not carry: fees of active
+// requests go back to the consumers (no slash) and the requests are forgotten; earned fees are paid out to the
+// provider addresses and the tallies are gone; every context is PAUSED with no batch outstanding (killed ones
+// included), queues are empty; request volumes (volume discounts) start again at zero.
+func (m *machine) doRestart(op Op) error {
+	if op.AsIs {
+		if !m.s.AsIsAdmissible() {
+			m.cl["skipped:C12/asis-running-context-rejected"]++
+			return nil
+		}
+		sr, err := m.step("restart-asis", func() chain.Result {
+			if stage, e := m.s.ReimportAsIs(); e != nil {
+				return chain.Result{Outcome: chain.Rejected, Err: fmt.Errorf("%s: %w", stage, e)}
+			}
+			return chain.Result{Outcome: chain.OK}
+		})
+		if err != nil {
+			return err
+		}
+		if sr.res.Outcome != chain.OK {
+			return m.failf("reimport-asis", "as-is genesis round trip of a state with only paused contexts failed: %v", sr.res.Err)
+		}
+		m.noteRestart("restart-asis")
+		if err := m.wantCallbacks("restart", sr.cbs, nil); err != nil {
+			return err
+		}
+		return m.wantDelta("restart", sr, chain.NewExpect())
+	}
+	e := chain.NewExpect()
+	for _, r := range m.reqs {
+		if r.status == stActive && r.fee.Sign() > 0 {
+			e.Move(SvcRequestEscrow, m.user(r.ctx.consumer), r.denom, r.fee)
+		}
+	}
+	for p := 0; p < nProviders; p++ {
+		for _, d := range m.earned[p].denoms() {
+			e.Move(SvcRequestEscrow, provAddr(p), d, m.earned[p][d])
+		}
+	}
+	sr, err := m.step("restart", func() chain.Result {
+		if r := m.s.PrepZeroHeight(); r.Outcome != chain.OK {
+			if r.Err == nil {
+				r.Err = fmt.Errorf("prepare: %v", r.Panic)
+			}
+			r.Outcome = chain.Rejected
+			return r
+		}
+		if stage, e := m.s.ReimportZeroHeight(); e != nil {
+			return chain.Result{Outcome: chain.Rejected, Err: fmt.Errorf("%s: %w", stage, e)}
+		}
+		return chain.Result{Outcome: chain.OK}
+	})
+	if err != nil {
+		return err
+	}
+	if sr.res.Outcome != chain.OK {
+		return m.failf("reimport-zero-height", "zero-height restart of the service module failed: %v", sr.res.Err)
+	}
+	nDropped := 0
+	for _, r := range m.reqs {
+		if r.status == stActive {
+			r.status = stDropped
+			nDropped++
+		}
+	}
+	if nDropped > 0 {
+		m.cl["restart-with-active-requests"]++
+	}
+	if len(e.Delta().Bal) > 0 {
+		m.cl["restart-paying-out"]++
+	}
+	m.earned = map[int]coins{}
+	m.vol = map[string]uint64{}
+	for _, c := range m.ctxs {
+		if !c.exists {
+			continue
+		}
+		if c.batch != nil {
+			m.cl["restart-with-batch-in-flight"]++
+		}
+		c.state, c.batch, c.clean, c.firstDue, c.restarted = servicetypes.PAUSED, nil, false, false, true
+		m.cl["restart-with-contexts"]++
+	}
+	m.noteRestart("restart")
+	if err := m.wantCallbacks("restart", sr.cbs, nil); err != nil {
+		return err
+	}
+	return m.wantDelta("restart", sr, e)
+}
+
+func (m *machine) anyRestoredBinding(prov int) bool {
+	for _, k := range m.bindOrd {
+		if b := m.binds[k]; b.prov == prov && b.restored {
+			return true
+		}
+	}
+	return false
+}
+
+func (m *machine) noteRestart(class string) {
+	m.cl[class]++
+	for _, k := range m.bindOrd {
+		b := m.binds[k]
+		b.restored = true
+		if provAddr(b.prov).Equals(m.user(b.owner)) {
+			m.cl["restart-with-owner==provider"]++
+		} else {
+			m.cl["restart-with-owner!=provider"]++
+		}
+	}
+	if len(m.wd) > 0 {
+		m.cl["restart-with-withdraw-address"]++
+	}
 }
 
 func (m *machine) doParams(op Op) error {
@@ -1279,7 +1435,7 @@ func (m *machine) doBlock(dt int64) error {
 				if c.lastIssue != 0 && c.clean {
 					m.cl["timing-checked"]++
 				}
-				if !c.repeated && cc.BatchCounter > 1 {
+				if !c.repeated && cc.BatchCounter > 1 && !c.restarted {
 					return m.failf("oneshot-second-batch", "one-shot context %s issued batch %d", c.id, cc.BatchCounter)
 				}
 				if c.repeated && !c.modified && c.total > 0 && int64(cc.BatchCounter) > c.total {
@@ -1299,7 +1455,7 @@ func (m *machine) doBlock(dt int64) error {
 			}
 			for i, ri := range gotReqs {
 				w := el[i]
-				if ri.Provider != SvcProviderAddr(w.prov).String() || ri.Batch != cc.BatchCounter || ri.ReqH != H || ri.ExpH != H+c.timeout || !ri.Active || ri.Answered {
+				if ri.Provider != provAddr(w.prov).String() || ri.Batch != cc.BatchCounter || ri.ReqH != H || ri.ExpH != H+c.timeout || !ri.Active || ri.Answered {
 					return m.failf("batch-content", "context %s batch %d request %d: %+v, expected provider %d issued at %d expiring at %d",
 						c.id, cc.BatchCounter, i, ri, w.prov, H, H+c.timeout)
 				}
@@ -1495,6 +1651,8 @@ func (m *machine) invariants() error {
 			if ri.Active || ri.Answered {
 				return m.failf("outcome", "request %s expired: active=%v answered=%v", ri.ID, ri.Active, ri.Answered)
 			}
+		case stDropped:
+			return m.failf("outcome", "request %s was refunded and dropped by a restart but is stored again", ri.ID)
 		}
 	}
 	for _, r := range m.reqs {
@@ -1518,7 +1676,7 @@ func (m *machine) invariants() error {
 		depSum.Add(depSum, b.Deposit.AmountOf(baseDenom).BigInt())
 		var mb *mBinding
 		for i := 0; i < nProviders; i++ {
-			if SvcProviderAddr(i).String() == b.Provider {
+			if provAddr(i).String() == b.Provider {
 				mb = m.binds[bindKey(b.ServiceName, i)]
 			}
 		}
@@ -1554,7 +1712,7 @@ func (m *machine) invariants() error {
 	// (3) provider-side and owner-side tallies agree, and both agree with the model
 	byOwner := map[int]coins{}
 	for p := 0; p < nProviders; p++ {
-		got := toCoins(per[SvcProviderAddr(p).String()])
+		got := toCoins(per[provAddr(p).String()])
 		want := m.earned[p]
 		if want == nil {
 			want = coins{}
